@@ -60,6 +60,7 @@ type World struct {
 	ifaceSpecs  map[string]*FuncSpec
 	consts      map[string]Expr
 	prog        *Program
+	scratch     map[string]bool
 }
 
 type structSort struct {
@@ -87,6 +88,7 @@ func newWorld() *World {
 		funcSpecs:   map[string]*FuncSpec{},
 		ifaceSpecs:  map[string]*FuncSpec{},
 		consts:      map[string]Expr{},
+		scratch:     map[string]bool{},
 	}
 }
 
